@@ -19,7 +19,7 @@ EXPLANATION = (
     "list', the enabled list receives an identifier only when its enabled decision is true, and the copies kept by "
     "the parser properties pair each flag with the same-named manager flag; R20c front matter is looked for before "
     "the block pass loop and only under its flag; R20d each extension's documentation page states the identifier "
-    "and the enabled default the code uses; R20e (=R11e) the per-document state of the pragma extension is re-created for every document, so a document without pragma syntax never carries pragmas. Not decided: that an enabled extension changes only documents containing "
+    "and the enabled default the code uses; R20f conversely, every test of an extension flag in the parser (or of a proxy for it: 'the extension's delimiter is in the gated emphasis set') opens a region in which that extension is used (directly or through a parser helper within three calls) - a flag test that only steers ordinary parser logic changes the parse of documents that do not contain the extension's syntax; R20e (=R11e) the per-document state of the pragma extension is re-created for every document, so a document without pragma syntax never carries pragmas. Not decided: that an enabled extension changes only documents containing "
     "its syntax, and that front matter shifts positions by exactly the block's length (run-time behaviour)."
 )
 ASSUMPTIONS = ["extension code is reached only through the sites enumerated by R20a (the call graph resolves ~100 % of call sites; checked by the resolution floor)"]
@@ -341,11 +341,120 @@ def r20d(ctx: Context) -> None:
                 rule.fail(pkey, rel, f"documented prefix {prefixes} is not 'extensions.{ident}.'")
 
 
+def r20f(ctx: Context) -> None:
+    """The converse of R20a: a test of an extension's flag (or of a proxy for it - 'is the
+    extension's delimiter in the gated set') may only open code that uses that extension.  A flag
+    test that steers ordinary parser logic makes documents without the extension's syntax parse
+    differently once the extension is switched on."""
+    prog = ctx.prog
+    rule = ctx.rule("R20f", "every test of an extension flag in the parser opens a region that uses that extension, nothing else", 5)
+    fragment_to_modules: Dict[str, Set[str]] = {}
+    for module, fragments in FLAGS.items():
+        for fragment in fragments:
+            fragment_to_modules.setdefault(fragment, set()).add(module)
+    # proxies: constants added to a container under a flag (the '~' delimiter in the emphasis set)
+    proxies: List[Tuple[str, str, str]] = []  # (container attr, element attr, fragment)
+    init = prog.method("pymarkdown.inline.emphasis_helper.EmphasisHelper", "initialize")
+    for node in walk_local(init.node):
+        if isinstance(node, ast.AugAssign) and isinstance(node.target, ast.Attribute) and isinstance(node.value, ast.Attribute):
+            gate = _gated_locally(init, node, FLAGS["markdown_strikethrough"])
+            if gate:
+                proxies.append((node.target.attr, node.value.attr, FLAGS["markdown_strikethrough"][0]))
+
+    def flag_of(test: ast.AST) -> Optional[str]:
+        text = norm(test)
+        if isinstance(test, (ast.Attribute, ast.Name)):
+            for fragment in fragment_to_modules:
+                if fragment in text:
+                    return fragment
+        if isinstance(test, ast.Compare) and len(test.ops) == 1 and isinstance(test.ops[0], (ast.In, ast.NotIn)):
+            for container, element, fragment in proxies:
+                if isinstance(test.left, ast.Attribute) and test.left.attr == element and isinstance(test.comparators[0], ast.Attribute) and test.comparators[0].attr == container:
+                    return fragment
+        return None
+
+    closure_cache: Dict[Tuple[str, str], bool] = {}
+
+    def helper_uses_extension(target: FuncInfo, fragment: str, depth: int) -> bool:
+        """a parser helper that (within three calls) uses the extension: calling it is using the extension"""
+        mark = (target.qualname, fragment)
+        if mark in closure_cache:
+            return closure_cache[mark]
+        closure_cache[mark] = False
+        found = any(uses_extension(target, n, fragment, depth + 1) for n in walk_local(target.node) if isinstance(n, (ast.Call, ast.Attribute, ast.Name, ast.AugAssign)))
+        closure_cache[mark] = found
+        return found
+
+    def uses_extension(func: FuncInfo, node: ast.AST, fragment: str, depth: int = 0) -> bool:
+        modules = fragment_to_modules[fragment]
+        if isinstance(node, ast.Call):
+            site = site_for(prog, func, node)
+            if site and any((_ext_module(t) or "") in modules for t in site.targets):
+                return True
+            if site and depth < 3 and not site.dynamic and any(t.rel.startswith(PARSER_PACKAGES) and helper_uses_extension(t, fragment, depth) for t in site.targets):
+                return True
+        if isinstance(node, ast.Attribute) and isinstance(node.ctx, ast.Load):
+            typ = prog.infer(func, node)
+            if typ and typ[0] == "func" and (_ext_module(typ[1]) or "") in modules:
+                return True
+            if typ and typ[0] in ("cls", "type") and typ[1].module.rel.startswith("pymarkdown/extensions/") and typ[1].module.rel.split("/")[-1][:-3] in modules:
+                return True
+        if isinstance(node, ast.Name) and isinstance(node.ctx, ast.Load):
+            typ = prog.infer(func, node)
+            if typ and typ[0] in ("cls", "type") and typ[1].module.rel.startswith("pymarkdown/extensions/") and typ[1].module.rel.split("/")[-1][:-3] in modules:
+                return True
+        if isinstance(node, ast.AugAssign) and isinstance(node.target, ast.Attribute) and any(node.target.attr == c for c, _e, f in proxies if f == fragment):
+            return True
+        return False
+
+    for func in prog.iter_functions():
+        if not func.rel.startswith(PARSER_PACKAGES):
+            continue
+        atoms: List[Tuple[ast.AST, str]] = []
+        for node in walk_local(func.node):
+            tests: List[ast.AST] = []
+            if isinstance(node, (ast.If, ast.While, ast.IfExp)):
+                tests = [node.test]
+            for test in tests:
+                stack = [test]
+                while stack:
+                    current = stack.pop()
+                    if isinstance(current, ast.BoolOp):
+                        stack.extend(current.values)
+                    elif isinstance(current, ast.UnaryOp) and isinstance(current.op, ast.Not):
+                        stack.append(current.operand)
+                    else:
+                        fragment = flag_of(current)
+                        if fragment:
+                            atoms.append((current, fragment))
+        if not atoms:
+            continue
+        candidates = [n for n in walk_local(func.node) if isinstance(n, (ast.Call, ast.Attribute, ast.Name, ast.AugAssign))]
+        for atom, fragment in atoms:
+            key = func_key(func, atom) + " [flag region]"
+            enabling = isinstance(atom, ast.Compare) and isinstance(atom.ops[0], ast.NotIn)
+            used = False
+            for node in candidates:
+                if not uses_extension(func, node, fragment):
+                    continue
+                for test, polarity in guards_of(func.node, node, include_asserts=False):
+                    if test is atom and polarity != enabling:
+                        used = True
+                        break
+                if used:
+                    break
+            if used:
+                rule.ok(key, f"the region opened by '{norm(atom)[:60]}' uses the extension")
+            else:
+                rule.fail(key, where(func, atom), f"'{norm(atom)[:80]}' tests whether an extension is enabled, but nothing that runs only when it holds belongs to that extension: the test steers ordinary parser logic, so documents without the extension's syntax parse differently once it is enabled")
+
+
 def run(ctx: Context) -> None:
     r20a(ctx)
     r20b(ctx)
     r20c(ctx)
     r20d(ctx)
+    r20f(ctx)
     from sa.rules import c11
 
     # a document without an extension's syntax must not inherit that extension's state from an earlier one
